@@ -34,7 +34,7 @@ Theorem funcdef_shape : forall cfg c p name ln args body decs es,
     rmap (tr (c_nsp c)) (rev decs) = inl decs' /\
     let lam := Lambda (a_posonly args) (a_args args) (a_vararg args) (a_kwonly args) kwdefaults' (a_kwarg args) defaults' lbody in
     let decorated := decorate decs' lam in
-    let final := if n_is_method fn && String.eqb name "__init_subclass__" then call (Name "classmethod") [decorated] else decorated in
+    let final := hook_wrap p (n_is_method fn) name decs decorated in
     get_assign (c_nsp c) name final = inl e /\ es = [e].
 Proof.
   intros cfg c p name ln args body decs es H. cbn [lower_stmt] in H.
@@ -59,7 +59,7 @@ Corollary funcdef_params_copied : forall cfg c p name ln args body es,
     find_inner (c_nsp c) name ln = Some fn /\
     get_assign (c_nsp c) name
       (let lam := Lambda (a_posonly args) (a_args args) (a_vararg args) (a_kwonly args) (map (fun _ => None) (a_kwonly args)) (a_kwarg args) [] lbody in
-       if n_is_method fn && String.eqb name "__init_subclass__" then call (Name "classmethod") [lam] else lam) = inl e /\ es = [e].
+       hook_wrap p (n_is_method fn) name [] lam) = inl e /\ es = [e].
 Proof.
   intros cfg c p name ln args body es Hd Hk H.
   destruct (funcdef_shape _ _ _ _ _ _ _ _ _ H) as [fn [ds [kds [decs' [lbody [e [A [B [C [D E]]]]]]]]]].
